@@ -40,7 +40,7 @@ CHECKS = {
    design="§4 C17"),
  "C08": dict(
    level="exploration",
-   text="SLICE of the property: storage-fault images of valid sources. Each run takes a real-world corpus file (all 892 walked systematically), a generated module set (every notation knob of the generator, incl. definitions that compile with warnings quoting multi-byte text) or, one run in eight, a hand-written base (dsim/samples: two notation files covering the notation of X.680-X.683 the compiler accepts, 73 modules with reference cycles of every kind also entered from outside the cycle, 42 inputs in valid notation the compiler rejects, 70 inputs with boundary literals in every literal position - 2^63..10^400, exact ends of i64/u64/i128, inverted ranges, f64 overflow, empty/odd/long bit and hex strings, character tuples, time strings) and a batch of images of it - truncation at any byte (biased to the last bytes; in the thorough tier every prefix of small generated sources), single-bit flips, 512-byte sector zero-fill/duplicate/swap, splices of two files - delivered as a literal or as a file read through the simulated disk (the seam applies truncation/flip/zero-fill to the bytes in flight), compiles with both backends (half of the runs with a random RasnConfig) and renders every error and warning with Display and contextualize. Oracle: the operation returns; no panic (hook + catch_unwind), no SIGSEGV/SIGABRT, no CPU-budget overrun, on 2 MiB and 8 MiB stacks.",
+   text="SLICE of the property: storage-fault images of valid sources. Each run takes a real-world corpus file (all 892 walked systematically), a generated module set (every notation knob of the generator, incl. definitions that compile with warnings quoting multi-byte text) or, one run in eight, a hand-written base (dsim/samples: two notation files covering the notation of X.680-X.683 the compiler accepts, 73 modules with reference cycles of every kind also entered from outside the cycle, 45 inputs the compiler rejects (valid notation it does not support, and constraints of the wrong kind behind SIZE), 71 inputs with boundary literals in every literal position - 2^63..10^400, exact ends of i64/u64/i128, inverted ranges, f64 overflow, empty/odd/long bit and hex strings, character tuples, time strings) and a batch of images of it - truncation at any byte (biased to the last bytes; in the thorough tier every prefix of small generated sources), single-bit flips, 512-byte sector zero-fill/duplicate/swap, splices of two files - delivered as a literal or as a file read through the simulated disk (the seam applies truncation/flip/zero-fill to the bytes in flight), compiles with both backends (half of the runs with a random RasnConfig) and renders every error and warning with Display and contextualize. Oracle: the operation returns; no panic (hook + catch_unwind), no SIGSEGV/SIGABRT, no CPU-budget overrun, on 2 MiB and 8 MiB stacks.",
    note="Not claimed: arbitrary byte soup and GENERATED exotic notation / cycles (an input fuzzer, another technique family); hand-written bases with that notation and with reference cycles are part of the check. Rejecting malformed input with >= 20 nested value braces / WITH COMPONENTS / object-set braces takes exponential time, and types nested some 250 levels deep exhaust a 2 MiB stack (both recorded in DESIGN 10.2, in no base). Every simulated run executes in a child forked from a parent that never ran compiler code; crash containment and the CPU budget are the worker's.",
    technique="deterministic simulation with fault injection: seeded storage-fault images (truncation, bit flip, sector faults, splice) delivered through a simulated disk seam, crash/hang supervision per forked run",
    design="§4 C08"),
